@@ -667,12 +667,39 @@ fn with_nth(t: &mut T, n: &mut usize, f: &mut dyn FnMut(&mut T)) -> bool {
 
 /// plant one random mutation that *may* violate the contract at a random node
 pub fn plant(rng: &mut Rng, t: &T) -> (T, &'static str) {
-    let kind = rng.below(14);
+    let kind = rng.below(15);
     plant_kind(rng, t, kind)
 }
 
 /// plant the mutation of the given kind (0..12) at a random node
 pub fn plant_kind(rng: &mut Rng, t: &T, kind: u64) -> (T, &'static str) {
+    if kind == 14 {
+        // an infoset that the tree first shows below an own decision of its player, shown once more
+        // at a node with no own decision above it, later in the tree (what the player remembers at
+        // the two nodes differs)
+        fn deep(t: &T, own: [bool; 2]) -> Option<(bool, u32, Vec<u32>)> {
+            match t {
+                T::Term(_) => None,
+                T::Chance(_, o) => o.iter().find_map(|(_, c)| deep(c, own)),
+                T::Player(one, i, a) => {
+                    let p = if *one { 0 } else { 1 };
+                    if a.len() >= 2 && own[p] {
+                        return Some((*one, *i, a.iter().map(|x| x.0).collect()));
+                    }
+                    let mut o2 = own;
+                    if a.len() >= 2 {
+                        o2[p] = true;
+                    }
+                    a.iter().find_map(|(_, c)| deep(c, o2))
+                }
+            }
+        }
+        if let Some((one, lab, acts)) = deep(t, [false, false]) {
+            let late = T::Player(one, lab, acts.iter().map(|a| (*a, T::Term(0.125 * *a as f64))).collect());
+            return (T::Chance(None, vec![(1.0, t.clone()), (1.0, late)]), "late-shallow-infoset");
+        }
+        return (t.clone(), "none");
+    }
     if kind == 13 {
         // one named chance infoset at a node whose first weight dominates so much that its
         // normalised probability is exactly one, and at a single-outcome node: the two nodes do not
